@@ -583,9 +583,10 @@ macro_rules! impl_nio_read_iovec {
                     while received < length && left_time > 0 {
                         // Assuming iov_len is 4, but only 1 is read, at this point we should continue trying to fill the current iovec
                         if 0 != offset {
+                            // shift the caller's entry, not the copy an earlier retry already shifted
                             arg[0] = libc::iovec {
-                                iov_base: (arg[0].iov_base as usize + offset) as *mut std::ffi::c_void,
-                                iov_len: arg[0].iov_len - offset,
+                                iov_base: (iovec.iov_base as usize + offset) as *mut std::ffi::c_void,
+                                iov_len: iovec.iov_len - offset,
                             };
                         }
                         r = self.inner.$syscall(
@@ -817,9 +818,10 @@ macro_rules! impl_nio_write_iovec {
                     }
                     while sent < length && left_time > 0 {
                         if 0 != offset {
+                            // shift the caller's entry, not the copy an earlier retry already shifted
                             arg[0] = libc::iovec {
-                                iov_base: (arg[0].iov_base as usize + offset) as *mut std::ffi::c_void,
-                                iov_len: arg[0].iov_len - offset,
+                                iov_base: (iovec.iov_base as usize + offset) as *mut std::ffi::c_void,
+                                iov_len: iovec.iov_len - offset,
                             };
                         }
                         r = self.inner.$syscall(
